@@ -444,6 +444,18 @@ pub fn lex(src: &[u8]) -> RefLex
 			b'\'' | b'"' =>
 			{
 				let (r, end, ext) = scan_quoted(src, i + 1, x, x == b'"');
+				// `\u{...}` with more than six digits (leading zeros): the
+				// documentation does not say how many digits there may be
+				if x == b'"' && src[i..end.min(src.len())].windows(3).enumerate().any(|(k, w)| {
+					w == b"\\u{" && {
+						let from = i + k + 3;
+						let n = src[from.min(src.len())..].iter().take_while(|b| hexval(**b).is_some()).count();
+						n > 6
+					}
+				})
+				{
+					out.unspecified.push("long-unicode-escape");
+				}
 				match r
 				{
 					Ok(bytes) =>
